@@ -171,7 +171,12 @@ def conformance(res, modname, cases):
     reg = load_registry(modname)
     tot = res.conformance.setdefault('checked', 0)
     for cname, argsets in cases.items():
-        checked, mism, skipped = concrete.eval_concrete(reg, reg.contracts[cname], argsets)
+        try:
+            checked, mism, skipped = concrete.eval_concrete(reg, reg.contracts[cname], argsets)
+        except Exception as e:  # noqa - the function left the shape the extraction knows (its K1 obligations are 'notformed' then)
+            res.conformance['skipped'] = res.conformance.get('skipped', 0) + len(argsets)
+            res.conformance.setdefault('not_evaluated', []).append({'contract': cname, 'why': repr(e)[-300:]})
+            continue
         res.conformance['checked'] = res.conformance.get('checked', 0) + checked
         res.conformance['skipped'] = res.conformance.get('skipped', 0) + len(skipped)
         for m in mism:
